@@ -265,6 +265,16 @@ def k_solar_time_next(eng, nmax=10 ** 9):
 
 # ================================================================================================ SolarTime::subtract
 def k_solar_time_subtract(eng):
+    """SolarTime::subtract = 86400 * (day-count difference) + clock difference.  The two days are day numbers (C01 01.c/01.f2):
+    SolarDay::subtract of them is their difference; any other way of obtaining a day distance (day-of-month fields, month
+    comparisons ...) yields values the specification knows nothing about, so a shortcut that bypasses the day count is visible."""
+    from .objmodel import Model
+    holder = {}
+
+    class DayNum:
+        def __init__(self, t):
+            self.t = t
+
     def build(eng):
         fields = struct_fields(os.path.join(REPO, "src/tyme/solar.rs"), "SolarTime")
         ix = {n: k for k, n in enumerate(fields)}
@@ -272,86 +282,51 @@ def k_solar_time_subtract(eng):
         ctx = eng.ctx({
             "SolarTime::get_hour": ("get_hour", "&SolarTime", None), "SolarTime::get_minute": ("get_minute", "&SolarTime", None),
             "SolarTime::get_second": ("get_second", "&SolarTime", None), "SolarTime::get_solar_day": ("get_solar_day", "&SolarTime", None)})
+        ctx.model = Model()
         a = Rec(ctx, "self", "SolarTime")
         b = Rec(ctx, "target", "SolarTime")
         ah, am, as_ = a.field(ix["hour"], "usize"), a.field(ix["minute"], "usize"), a.field(ix["second"], "usize")
         bh, bm, bs = b.field(ix["hour"], "usize"), b.field(ix["minute"], "usize"), b.field(ix["second"], "usize")
+        Oa = ctx.fresh_value("day_number_of_self", "isize")
+        Ob = ctx.fresh_value("day_number_of_target", "isize")
+        da, db = DayNum(Oa), DayNum(Ob)
+        a.fields[ix["day"]] = da
+        b.fields[ix["day"]] = db
+        model = ctx.model
+        base = model.call
+
+        def call(c, fr, callee, args, path):
+            v = [model.deref(c, x) for x in args]
+            if callee == "SolarDay::subtract" and len(v) == 2 and isinstance(v[0], DayNum) and isinstance(v[1], DayNum):
+                return True, T("(- %s %s)" % (v[0].t.s, v[1].t.s), "Int")
+            return base(c, fr, callee, args, path)
+        model.call = call
         paths = ctx.run(fn, [("refrec", a), b])
-        pre = ["(<= %s 23)" % ah.s, "(<= %s 59)" % am.s, "(<= %s 59)" % as_.s, "(<= %s 23)" % bh.s, "(<= %s 59)" % bm.s, "(<= %s 59)" % bs.s]
-        build.meta = (ctx, a, b, ix, (ah, am, as_, bh, bm, bs))
+        pre = ["(<= %s 23)" % ah.s, "(<= %s 59)" % am.s, "(<= %s 59)" % as_.s, "(<= %s 23)" % bh.s, "(<= %s 59)" % bm.s, "(<= %s 59)" % bs.s,
+               "(<= 1721424 %s 5373484)" % Oa.s, "(<= 1721424 %s 5373484)" % Ob.s]
+        holder.update(ctx=ctx)
 
         def shape(p):
-            names = [c[0] for c in p.calls]
-            if names != ["SolarDay::subtract"]:
-                return "unexpected call sequence %s" % names
-            c = p.calls[0]
-            x, y = c[1]
-            if not (isinstance(x, Ref) and x.proj and x.proj[-1][0] == "field" and x.proj[-1][1] == ix["day"]):
-                return "SolarDay::subtract is not called on self.day"
-            if y is not b.fields.get(ix["day"]):
-                return "SolarDay::subtract is not given target.day"
             if not isinstance(p.ret, T):
                 return "non-scalar result"
             return None
 
         def posts(p):
-            days = p.calls[0][2]
-            # the day difference of two supported dates (01.f2): |days| <= 3652060
-            return [("value", "(=> (and (<= (- 3652060) %s) (<= %s 3652060)) (= %s (+ (* 86400 %s) (- (+ (* 3600 %s) (* 60 %s) %s) (+ (* 3600 %s) (* 60 %s) %s)))))" % (
-                days.s, days.s, p.ret.s, days.s, ah.s, am.s, as_.s, bh.s, bm.s, bs.s))]
-        # overflow obligations need the bound on days as a precondition: add it for every path's call result
-        for p in paths:
-            if p.calls and isinstance(p.calls[0][2], T):
-                d = p.calls[0][2].s
-                pre.append("(and (<= (- 3652060) %s) (<= %s 3652060))" % (d, d))
+            return [("value", "(= %s (+ (* 86400 (- %s %s)) (- (+ (* 3600 %s) (* 60 %s) %s) (+ (* 3600 %s) (* 60 %s) %s))))" % (
+                p.ret.s, Oa.s, Ob.s, ah.s, am.s, as_.s, bh.s, bm.s, bs.s))]
+        # any integer the code obtains from elsewhere (e.g. day-of-month getters) is small: keeps the overflow obligations meaningful
+        for n, (sort, lo, hi) in list(ctx.inputs.items()):
+            if n.startswith("|ret") and sort == "Int":
+                pre.append("(<= (- 100000000) %s 100000000)" % n)
         return ctx, paths, pre, posts, shape
 
-    def validate(eng, ctx, paths, pre):
-        ctx, a, b, ix, (ah, am, as_, bh, bm, bs) = build.meta
-        cases = [((2023, 1, 1, 0, 0, 20), (2023, 1, 1, 0, 0, 0)), ((2023, 1, 1, 0, 0, 0), (2023, 1, 1, 0, 0, 20)), ((2023, 1, 2, 1, 2, 3), (2023, 1, 1, 23, 59, 59)),
-                 ((1582, 10, 15, 0, 0, 0), (1582, 10, 4, 23, 59, 59)), ((1, 1, 1, 0, 0, 0), (9999, 12, 31, 23, 59, 59)), ((2000, 3, 1, 12, 0, 0), (2000, 2, 28, 12, 0, 1))]
-        from props.c01 import ordinal
-        queries = []
-        for k, (x, y) in enumerate(cases):
-            days = ordinal(*x[:3]) - ordinal(*y[:3])
-            for j, p in enumerate(paths):
-                pin = ["(= %s %d)" % (t.s, v) for t, v in zip((ah, am, as_, bh, bm, bs), x[3:] + y[3:])] + ["(= %s %s)" % (p.calls[0][2].s, solve.lit(days))]
-                queries.append(("val/%d/%d" % (k, j), pin + [c.s for c in p.pc] + ["(= vr %s)" % p.ret.s], "true", ["vr"]))
-        decls = dict(ctx.inputs)
-        decls["vr"] = ("Int", None, None)
-        final, stats, _ = solve.decide(decls, queries)
-        for k, (x, y) in enumerate(cases):
-            got = None
-            for j in range(len(paths)):
-                v = final.get("val/%d/%d" % (k, j))
-                if v and v["verdict"] == "cex":
-                    got = int(v["model"]["vr"])
-            nat = eng.native("st_subtract", *(x + y))
-            if got is None or str(got) != nat:
-                return False, "input %s - %s: encoding %s native %s" % (x, y, got, nat), k
-        return True, "encoding and native SolarTime::subtract agree on %d inputs" % len(cases), len(cases)
-
     def replay(eng, model):
-        ctx, a, b, ix, (ah, am, as_, bh, bm, bs) = build.meta
-        try:
-            v = [int(model[t.s]) for t in (ah, am, as_, bh, bm, bs)]
-            days = [int(model[k]) for k in model if "SolarDay::subtract" in k][0]
-        except Exception as e:
-            return False, "model incomplete: %r" % e
-        # realise the day difference with two real dates
-        from props.c01 import ordinal
-        base = ordinal(2000, 1, 1)
-        if not (-3652060 <= days <= 3652060):
-            return False, "day difference outside the domain"
-        o1 = base if days <= 0 else base
-        o2 = base - days
-        if not (1721424 <= o2 <= 5373484):
-            o1, o2 = base + days, base
-        nat = eng.native("st_subtract_ord", o1, v[0], v[1], v[2], o2, v[3], v[4], v[5])
-        exp = 86400 * (o1 - o2) + (v[0] * 3600 + v[1] * 60 + v[2]) - (v[3] * 3600 + v[4] * 60 + v[5])
-        return (nat != str(exp)), "subtract of day numbers %d %s and %d %s: native %s expected %d" % (o1, v[:3], o2, v[3:], nat, exp)
+        nat = eng.native("subtract_scan")
+        if nat in ("NONE", "PANIC", "UNKNOWN", ""):
+            return nat == "PANIC", "native scan: " + (nat or "no output")
+        return True, "SolarTime::subtract is not the distance in seconds: " + nat
 
-    return run_kernel(eng, "12.b/B/subtract", "12.b", "every pair of clock times, every day difference of two supported dates", build, validate, replay)
+    return run_kernel(eng, "12.b/B/subtract", "12.b", "every pair of clock times, every pair of day numbers in range", build, None, replay)
 
 
 # ================================================================================================ index_of
